@@ -308,3 +308,26 @@ func Replay(p Property, f Found, strict bool, verbose bool) (reproduced bool, go
 	_, ok := sameViolation(vs, f.Violation)
 	return ok, vs, ctx.Hashes, ctx.Texts, ""
 }
+
+// ReplayFresh re-executes the case of a Found under nsched fresh PRNG schedules
+// (used for order-dependent witnesses whose recorded trace no longer fits the
+// tree: the violation needs "some order", not that exact one).
+func ReplayFresh(p Property, f Found, nsched int) (reproduced bool, got []Violation, infra string) {
+	c, err := p.Decode(f.Case)
+	if err != nil {
+		return false, nil, "decode: " + err.Error()
+	}
+	if n := len(f.Traces); n > nsched {
+		nsched = n
+	}
+	ctx := newCtx(NewStats(), Mix64(f.Seed, f.RunIndex), nsched)
+	vs, infra := runCase(p, c, ctx)
+	if infra != "" {
+		return false, nil, infra
+	}
+	_, ok := sameViolation(vs, f.Violation)
+	return ok, vs, ""
+}
+
+// Mix64 derives the schedule root of a run index exactly as the worker does.
+func Mix64(root, idx uint64) uint64 { return simrt.Mix(root, idx, "schedroot") }
